@@ -237,6 +237,12 @@ func c10Program(r *core.Rng) []ast.Node {
 		ast.Assign{Name: "xm", Value: ast.ArrayLit{Elems: []ast.Node{arr(1, 2, 3), arr(4, 5, 6, 7)}}},
 		ast.Assign{Name: "zsame", Value: ast.FuncLit{Params: []string{"p"}, Body: nm("p")}},
 		ast.Assign{Name: "zwrap", Value: ast.FuncLit{Params: []string{"p"}, Body: ast.ArrayLit{Elems: []ast.Node{nm("p"), il(0)}}}},
+		// a function that extends its parameter twice and keeps both results
+		ast.Assign{Name: "ztwice", Value: ast.FuncLit{Params: []string{"p"}, Body: ast.Block{Stmts: []ast.Node{
+			ast.Assign{Name: "q", Value: ast.Binary{Op: "+", L: nm("p"), R: ast.ArrayLit{Elems: []ast.Node{il(1)}}}},
+			ast.Assign{Name: "w", Value: ast.Binary{Op: "+", L: nm("p"), R: ast.ArrayLit{Elems: []ast.Node{nm("xk")}}}},
+			ast.ArrayLit{Elems: []ast.Node{nm("q"), nm("w"), nm("p")}}}}}},
+		ast.Assign{Name: "mkthree", Value: ast.FuncLit{Params: []string{"v"}, Body: ast.ArrayLit{Elems: []ast.Node{nm("v"), ast.Binary{Op: "+", L: nm("v"), R: il(1)}, ast.Binary{Op: "+", L: nm("v"), R: il(2)}}}}},
 		// a callee that uses the temp register itself
 		ast.Assign{Name: "ztmp", Value: ast.FuncLit{Params: []string{"v"}, Body: ast.Binary{Op: "+", L: ast.Binary{Op: "+", L: nm("v"), R: nm("v")}, R: nm("v")}}},
 		// two generators of one function suspended inside the same literal
@@ -253,7 +259,25 @@ func c10Program(r *core.Rng) []ast.Node {
 	for k := r.Range(6, 16); k > 0; k-- {
 		a := nm(vars[r.Intn(len(vars))])
 		b := nm(vars[r.Intn(len(vars))])
-		switch r.Intn(19) {
+		switch r.Intn(20) {
+		case 19: // a literal (computed elements, so built by the VM, possibly with spare capacity) handed over without ever being stored in a variable
+			v := newVar("ya")
+			n := r.Range(1, 6)
+			es := make([]ast.Node, n)
+			for i := range es {
+				es[i] = ast.Binary{Op: "+", L: nm("xk"), R: il(int64(i))}
+			}
+			var arg ast.Node = ast.ArrayLit{Elems: es}
+			switch r.Intn(4) {
+			case 0:
+				arg = icall("mkthree", il(int64(r.Intn(50))))
+			case 1:
+				arg = ast.Index{X: ast.ArrayLit{Elems: []ast.Node{arg, il(0)}}, I: il(0)}
+			case 2:
+				arg = icall("zsame", arg)
+			}
+			ss = append(ss, ast.Assign{Name: v, Value: icall("ztwice", arg)})
+			vars = append(vars, v)
 		case 16, 17, 18: // slices and concatenations of values that are only ever on the stack: elements of nested arrays, results of calls returning an existing array
 			v := newVar("ya")
 			lo := il(int64(r.Intn(2)))
